@@ -230,9 +230,10 @@ def streams(tier, rng):
     #     1100.  (The model's pack is quadratic in the count: beyond 100 only pack, not the round trip.)
     cases = []
     for n in range(0, 101):
-        a = _rand_pdu(rng, n)
-        cases.append((1374, a + [[]]))
-    for j in ((2, 3, 4, 6, 8, 12, 16) if not big else range(2, 17)):
+        if big or n <= 40 or n % 2 == 0:
+            a = _rand_pdu(rng, n)
+            cases.append((1374, a + [[]]))
+    for j in ((2, 3, 4, 8, 16) if not big else range(2, 17)):
         for n in (64 * j - 3, 64 * j - 2, 64 * j - 1, 64 * j):
             a = _rand_pdu(rng, n, large=0 if j > 4 else rng.randrange(2))
             cases.append((1371, a))
@@ -262,7 +263,7 @@ def streams(tier, rng):
     yield "nak_offset_boundaries", "exact", cases
     # 4. random PDUs: pack, round trip, round trip with suffix (look-alike continuations), decode of pack ++ suffix
     cases = []
-    for _ in range(20000 if big else 2500):
+    for _ in range(20000 if big else 2200):
         a = _rand_pdu(rng)
         w2 = 16 if a[1][1] else 8
         cases.append((1371, a)); cases.append((1374, a + [[]]))
@@ -377,7 +378,7 @@ def streams(tier, rng):
     # 9b. C04: CRC-flagged packed PDUs with every single-bit flip and bursts of 2..16 bits at every bit offset
     #     outside the length-determining octets 1..3 and the CRC flag bit
     cases = []
-    for _ in range(40 if big else 6):
+    for _ in range(40 if big else 5):
         a = _rand_pdu(rng, rng.choice([0, 1, 2]), crc=1)
         p = lay(a)
         nbits = 8 * len(p)
